@@ -12,3 +12,19 @@ func verifStage(query *Query, stage string, rows any) {
 		VerifStage(query, stage, rows)
 	}
 }
+
+// VerifCache, when installed by a verification harness, observes the steps of
+// ExecReader's selector cache protocol together with the fact whether the cache
+// mutex is held at that instant.
+var VerifCache func(event string, selector string, held bool)
+
+func verifCache(event string, selector string) {
+	if VerifCache == nil {
+		return
+	}
+	held := !mut.TryLock()
+	if !held {
+		mut.Unlock()
+	}
+	VerifCache(event, selector, held)
+}
